@@ -3,7 +3,7 @@
     "body started" the effect itself is exempted ([InvBut]).  Effect bodies here do not write
     signals ([pure_effects]). *)
 From Coq Require Import List ZArith Bool Arith Lia.
-From LV Require Import Reactive.Graph Reactive.Effects Reactive.GraphLemmas Reactive.GraphInvariant
+From LV Require Import Reactive.Graph Reactive.Effects Reactive.GraphLemmas Reactive.GraphReplay Reactive.GraphInvariant
                        Reactive.GraphMarkProofs Reactive.GraphMarkOrigin Reactive.GraphQueueProofs
                        Reactive.GraphPullBase Reactive.GraphPullSteps
                        Reactive.GraphPullDefs Reactive.GraphPullEval Reactive.GraphPullRead
@@ -51,7 +51,13 @@ Proof.
 Qed.
 
 Lemma RSpec_mono n n' R : n' <= n -> RSpec n R -> RSpec n' R.
-Proof. intros Hle H m c j s stk t s' v Hj. apply H. lia. Qed.
+Proof.
+  intros Hle H m c j s stk t s' v Hj Hjt He I C T Hr.
+  destruct (H m c j s stk t s' v ltac:(lia) Hjt He I C T Hr) as (A1 & A2 & A3 & A4 & A5 & A6).
+  split; auto. split; auto. split; auto. split; auto. split; auto.
+  intros w Hw. destruct (A6 w Hw) as (D & HD & HQ). exists D. split; auto.
+  cbv beta in *. intros rest. rewrite <- (HQ rest). symmetry. apply (rlvl_mono p n' n m (snd c) j (D ++ rest) Hj Hle).
+Qed.
 
 Lemma USpec_mono n n' U : n' <= n -> USpec n U -> USpec n' U.
 Proof. intros Hle H c j s stk t s' ch Hj. apply H. lia. Qed.
@@ -156,7 +162,7 @@ Proof.
   assert (HRe : RSpec e (read_any p)) by (apply (RSpec_mono (N p) e); [unfold N; lia|exact HR]).
   assert (Cc : ctx_ok [e] (Some e, true)) by (unfold ctx_ok; cbn; eauto).
   destruct (eval_spec p e (read_any p) HRe body (Some e, true) sc [e] e s' v Hok (le_n e) Ic Cc L1c Hr)
-    as (Ie & L1e & Pe). cbn [fst] in Pe. unfold TopOK in L1e. cbn [fst] in L1e.
+    as (Ie & L1e & Pe & _). cbn [fst] in Pe. unfold TopOK in L1e. cbn [fst] in L1e.
   destruct (inv_frame _ _ _ _ Ie e (or_introl eq_refl)) as (F1&F2&_&_&_&_&F7).
   split; [apply (Inv_nil p e 0); eapply Inv_pop; eauto|].
   split.
@@ -216,7 +222,7 @@ Proof.
   assert (T1 : TopOK (Some e, false) s1).
   { unfold TopOK; cbn. destruct (inv_rest _ _ _ _ I1 e (fun x => x)) as (R1&_). exact R1. }
   destruct (eval_spec p e (read_any p) HRe h (Some e, false) s1 [e] e s2 v Hok (le_n e) I1' Cc T1 Ev)
-    as (I2 & T2 & P2). unfold TopOK in T2. cbn [fst] in T2.
+    as (I2 & T2 & P2 & _). unfold TopOK in T2. cbn [fst] in T2.
   destruct (inv_frame _ _ _ _ I2 e (or_introl eq_refl)) as (F1&F2&_&_&_&_&F7).
   split; [apply Inv_emit; apply (Inv_nil p e 0); eapply Inv_pop; eauto|].
   split; auto. split; auto. split; auto. split.
